@@ -53,7 +53,8 @@ typedef struct {
     int window_pct;     /* % of parallel regions in which access pre-emption is active */
     int poison;         /* 0 none, else byte pattern for malloc'd memory */
     int record_trace;   /* record schedule trace */
-    int reserved;
+    int team_limit;     /* if > 0: regions get at most this many threads although omp_get_max_threads()
+                           reports nthreads (OMP_THREAD_LIMIT / OMP_DYNAMIC: legal for any runtime) */
     uint64_t max_steps; /* cap on scheduling steps per begin/end */
     uint64_t window_fn; /* if non-zero: access pre-emption only in the region function at this library offset */
 } SimCfg;
@@ -487,6 +488,8 @@ static void parallel_impl(void (*fn)(void *), void *data, unsigned num_threads,
         return;
     }
     int n = num_threads ? (int)num_threads : g_cfg.nthreads;
+    if (g_cfg.team_limit > 0 && n > g_cfg.team_limit)
+        n = g_cfg.team_limit;
     if (n < 1)
         n = 1;
     if (n > MAX_TEAM)
@@ -623,7 +626,7 @@ int omp_get_level(void) {
         l++;
     return l;
 }
-int omp_get_thread_limit(void) { return MAX_TEAM; }
+int omp_get_thread_limit(void) { return g_cfg.team_limit > 0 ? g_cfg.team_limit : MAX_TEAM; }
 double omp_get_wtime(void) {
     /* simulated clock: advances with scheduling steps only */
     return 1e-6 * (double)(g_st.steps + g_st.regions);
@@ -1002,6 +1005,8 @@ static void parallel_loop(void (*fn)(void *), void *data, unsigned nt, long s, l
     Team tmp;
     memset(&tmp, 0, sizeof tmp);
     tmp.n = (g_cur || g_team || g_err) ? 1 : (nt ? (int)nt : g_cfg.nthreads);
+    if (g_cfg.team_limit > 0 && tmp.n > g_cfg.team_limit)
+        tmp.n = g_cfg.team_limit;
     Team *save = g_team;
     g_team = &tmp;
     loop_init(&w, s, e, i, c, guided);
